@@ -1,8 +1,53 @@
-// uci-module helper
+// uci-module helper (private access to Uci / UCICommand). Appended to a scratch copy only (cfg rce_verif).
 #![allow(clippy::all, clippy::pedantic, clippy::nursery, dead_code, unused_imports)]
+use super::uci_command::{PositionKind, UCICommand};
 use super::*;
 
-pub fn main(_args: &[String]) {
-    eprintln!("uci helper: no command");
-    std::process::exit(3);
+fn guarded<F: FnOnce() + std::panic::UnwindSafe>(f: F) {
+    std::panic::set_hook(Box::new(|_| {}));
+    if let Err(e) = std::panic::catch_unwind(f) {
+        let msg = if let Some(s) = e.downcast_ref::<&str>() {
+            (*s).to_string()
+        } else if let Some(s) = e.downcast_ref::<String>() {
+            s.clone()
+        } else {
+            "?".to_string()
+        };
+        println!("PANIC {}", msg.replace('\n', " "));
+    }
+}
+
+pub fn main(args: &[String]) {
+    let cmd = args.first().map(String::as_str).unwrap_or("");
+    match cmd {
+        "parse" => {
+            let toks: Vec<String> = args[1..].to_vec();
+            guarded(move || {
+                let fields: Vec<&str> = toks.iter().map(String::as_str).collect();
+                match UCICommand::new(&fields) {
+                    Ok(c) => println!("OK ok {c:?}"),
+                    Err(e) => println!("OK err {e}"),
+                }
+            });
+        }
+        "exec" => {
+            // one command line executed on a fresh Uci; prints the resulting position's key or the error
+            let toks: Vec<String> = args[1..].to_vec();
+            guarded(move || {
+                let fields: Vec<&str> = toks.iter().map(String::as_str).collect();
+                let mut uci = Uci::new();
+                match UCICommand::new(&fields) {
+                    Ok(c) => match uci.execute_command(c) {
+                        Ok(()) => println!("OK ok {}", crate::board::rce_verif_board::board_str(&uci.board)),
+                        Err(e) => println!("OK execerr {e}"),
+                    },
+                    Err(e) => println!("OK parseerr {e}"),
+                }
+            });
+        }
+        _ => {
+            eprintln!("uci helper: unknown command {cmd}");
+            std::process::exit(3);
+        }
+    }
 }
